@@ -30,6 +30,8 @@ struct Env {
     report: Report,
     filter_sample: Value,
     seen_failure_keys: std::collections::BTreeSet<String>,
+    rt: Option<tokio::runtime::Runtime>,
+    world: Option<nexus::World>,
 }
 
 fn code_name(e: &KipError) -> String {
@@ -248,6 +250,9 @@ impl Env {
         if kind == "ensure" {
             return self.eval_ensure(op, rest);
         }
+        if kind == "exec" {
+            return self.eval_exec(op, rest);
+        }
         if kind == "refuse" {
             let (key, text) = rest.split_once(' ').unwrap_or((rest, ""));
             self.report.hit("op:refuse");
@@ -301,6 +306,133 @@ impl Env {
                     }
                     None => self.report.hit(&format!("text_rejected:{}", text_reason(&e))),
                 }
+            }
+        }
+    }
+
+    /// One UPDATE on an element whose kind the parser cannot know (`UPDATE :id …` / a literal id), through
+    /// `parse_kip` + `Executor::execute` on a real in-memory Nexus, against the model's `applyAction`.
+    fn eval_exec(&mut self, op: &str, rest: &str) {
+        self.report.hit("op:exec");
+        let Ok(case) = serde_json::from_str::<Value>(rest) else {
+            self.report.hit("err:decode");
+            self.report.case(op, false);
+            return;
+        };
+        let kind = case["kind"].as_str().unwrap_or("Concept").to_string();
+        let variant = case["action"].as_str().unwrap_or("SetFields").to_string();
+        let fields: Vec<(String, Value)> = case["fields"].as_array().map(|xs| xs.iter().filter_map(|kv| Some((kv.get(0)?.as_str()?.to_string(), kv.get(1)?.clone()))).collect()).unwrap_or_default();
+        if self.rt.is_none() {
+            self.rt = Some(tokio::runtime::Builder::new_current_thread().enable_all().build().expect("runtime"));
+        }
+        if self.world.is_none() {
+            let w = self.rt.as_ref().unwrap().block_on(nexus::World::new("c16"));
+            self.world = Some(w);
+        }
+        let id = self.world.as_ref().unwrap().ids.get(kind.as_str()).cloned().unwrap_or_default();
+        let target = if case["literal_id"].as_bool().unwrap_or(false) { eid(&id) } else { ep("id") };
+        let entries: Vec<(String, Value)> = if fields.is_empty() && variant != "SetFields" { vec![("note".to_string(), lit("x"))] } else { fields.clone() };
+        let block = match variant.as_str() {
+            "SetFields" => Block::Fields,
+            "SetAttributes" => Block::Attributes,
+            "UnsetAttributes" => Block::UnsetAttributes,
+            "SetFacet" => Block::Facet,
+            "UnsetFacet" => Block::UnsetFacet,
+            "SetStructural" => Block::SetStructural,
+            _ => Block::UnsetStructural,
+        };
+        let entries = match block {
+            Block::Facet | Block::UnsetFacet => vec![("salience".to_string(), num(1))],
+            Block::SetStructural | Block::UnsetStructural => vec![("has_step".to_string(), ep("id"))],
+            _ => entries,
+        };
+        let cmd = plan(false, vec![update(target, vec![update_action(block, &entries, None)], None)]);
+        let Some(text) = (U { sp: PLAIN }).command(&cmd) else {
+            self.report.hit("exec:no_text_spelling");
+            self.report.case(op, false);
+            return;
+        };
+        let mut params = std::collections::BTreeMap::new();
+        params.insert("id".to_string(), Value::String(id.clone()));
+        params.insert("ps".to_string(), Value::String("bound".into()));
+        params.insert("pa".to_string(), json!(["a", "b"]));
+        params.insert("pn".to_string(), json!(7));
+        // the bound JSON shape `set_fields` will see
+        let shape = |v: &Value| -> &'static str {
+            match v {
+                Value::Object(m) => match (m.get("Value"), m.get("Param").and_then(|p| p.as_str())) {
+                    (Some(Value::Object(k)), _) if k.contains_key("String") => "str",
+                    (Some(Value::Object(k)), _) if k.contains_key("Array") => "arr",
+                    (_, Some("ps")) => "str",
+                    (_, Some("pa")) => "arr",
+                    _ => "other",
+                },
+                _ => "other",
+            }
+        };
+        let mut sorted = fields.clone();
+        sorted.sort_by(|a, b| a.0.cmp(&b.0));
+        let line = if variant == "SetFields" {
+            format!("exec {kind} SetFields {} {}", sorted.len(), sorted.iter().map(|(k, v)| format!("{} {}", project::enc(k), shape(v))).collect::<Vec<_>>().join(" "))
+        } else {
+            format!("exec {kind} {variant} 0")
+        };
+        let model = self.ask(line.trim_end());
+        let (before, outcome, after) = {
+            let w = self.world.as_ref().unwrap();
+            let rt = self.rt.as_ref().unwrap();
+            let before = rt.block_on(w.view(&kind));
+            let outcome = rt.block_on(w.exec(&text, &params));
+            let after = rt.block_on(w.view(&kind));
+            (before, outcome, after)
+        };
+        const GATE_CODES: &[&str] = &["EpistemicRevisionRequired", "EvidenceCorrectionRequired", "InvalidLifecycleTransition", "ImmutableField", "TypeMismatch"];
+        let real = match &outcome {
+            nexus::Outcome::Parse(e) => format!("parse:{}", e.lines().next().unwrap_or("")),
+            nexus::Outcome::Refused { code, .. } if GATE_CODES.contains(&code.as_str()) => format!("err:{code}"),
+            nexus::Outcome::Refused { code, .. } => format!("downstream:{code}"),
+            nexus::Outcome::Done { changed } => format!("done:{}", if *changed { "changed" } else { "no_effect" }),
+        };
+        self.report.hit(&format!("exec:{kind}:{variant}:{}", real.split(':').take(2).collect::<Vec<_>>().join(":")));
+        self.report.case(&format!("{kind} {text} {real}"), real.starts_with("done"));
+        if let Some(model) = model {
+            self.report.model_compared += 1;
+            self.report.hit(&format!("model:exec:{}", model.split(':').take(2).collect::<Vec<_>>().join(":")));
+            let agree = if model.starts_with("err:") { real == model } else { real.starts_with("done") || real.starts_with("downstream") };
+            if !agree {
+                self.report.disagreement("run-time kind gate (apply_action)", &[op.to_string(), format!("# text: {text}"), format!("# model line: {line}")], &model, &format!("{real} ({outcome:?})"));
+            }
+        }
+        // independent oracle: whatever happened, nothing but the mutable planes of the element moved
+        let strip = |view: &str| -> Value {
+            let mut v: Value = serde_json::from_str(view).unwrap_or(Value::Null);
+            if let Some(e) = v.get_mut(0).and_then(|e| e.as_object_mut()) {
+                for k in ["attributes", "facets"] {
+                    e.remove(k);
+                }
+                if kind == "Concept" {
+                    for k in ["name", "canonical_id", "aliases", "structural"] {
+                        e.remove(k);
+                    }
+                }
+                if let Some(sys) = e.get_mut("_system").and_then(|s| s.as_object_mut()) {
+                    for k in ["version", "updated_at", "updated_tx", "space_seq"] {
+                        sys.remove(k);
+                    }
+                }
+            }
+            v
+        };
+        let (b, a) = (strip(&before), strip(&after));
+        if b.is_null() || b != a {
+            let key = if kind == "Concept" { "runtime-engine-owned-or-identity-rewritten" } else { "runtime-payload-rewritten" };
+            if self.seen_failure_keys.insert(key.to_string()) {
+                self.report.oracle_failure(key, "an UPDATE changed something other than the mutable planes of the element", &[op.to_string(), format!("# text: {text}")], &b.to_string(), &a.to_string());
+            }
+        }
+        if !real.starts_with("done") && before != after {
+            if self.seen_failure_keys.insert("runtime-refused-but-changed".to_string()) {
+                self.report.oracle_failure("runtime-refused-but-changed", "a refused UPDATE changed the element", &[op.to_string(), format!("# text: {text}")], &before, &after);
             }
         }
     }
@@ -846,6 +978,49 @@ fn probe() {
     });
 }
 
+/// UPDATEs whose target kind only the engine can know: every element kind × every action × field
+/// names of every class × the JSON shapes `set_fields` distinguishes, by parameter and by literal id.
+fn runtime_cases() -> Vec<String> {
+    let mut ops = Vec::new();
+    let kinds = ["Concept", "Proposition", "Assertion", "Evidence", "Activity"];
+    let values: Vec<Value> = vec![lit("x"), json!({"Value": {"Array": [{"String": "a"}]}}), num(3), json!({"Value": "Null"}), param("ps"), param("pa"), param("pn"),
+        json!({"Value": {"Object": {"a": {"Number": 1}}}})];
+    let mut names: Vec<&str> = vec!["name", "canonical_id", "aliases", "key", "client_key", "schema_ref", "retention", "note", "id", "kind", "state", "version"];
+    names.extend(PROTECTED);
+    names.extend(PAYLOAD);
+    for kind in kinds {
+        for name in &names {
+            for (i, v) in values.iter().enumerate() {
+                // records refuse before looking at the field: a few shapes are enough there
+                if kind != "Concept" && i > 2 {
+                    continue;
+                }
+                ops.push(format!("exec {}", json!({"kind": kind, "action": "SetFields", "fields": [[name, v]], "literal_id": i % 2 == 1})));
+            }
+        }
+        // several fields at once: the map is walked in key order and the first refusal wins
+        for fs in [
+            json!([["name", lit("n")], ["aliases", json!({"Value": {"Array": [{"String": "a"}]}})]]),
+            json!([["name", num(3)], ["key", lit("k")]]),
+            json!([["zzz", lit("n")], ["key", lit("k")]]),
+            json!([["name", lit("n")], ["stance", lit("oppose")], ["canonical_id", lit("c")]]),
+            json!([["retention", lit("n")], ["_system", lit("k")], ["aliases", lit("not-an-array")]]),
+            json!([]),
+        ] {
+            ops.push(format!("exec {}", json!({"kind": kind, "action": "SetFields", "fields": fs, "literal_id": false})));
+        }
+        for action in ["SetAttributes", "UnsetAttributes", "SetFacet", "UnsetFacet", "SetStructural", "UnsetStructural"] {
+            for literal in [false, true] {
+                ops.push(format!("exec {}", json!({"kind": kind, "action": action, "fields": [], "literal_id": literal})));
+            }
+        }
+        for name in ["governance", "_system", "stance", "payload"] {
+            ops.push(format!("exec {}", json!({"kind": kind, "action": "SetAttributes", "fields": [[name, lit("x")]], "literal_id": false})));
+        }
+    }
+    ops
+}
+
 fn main() {
     if std::env::var("C16_PROBE").is_ok() {
         probe();
@@ -861,7 +1036,7 @@ fn main() {
         Ok(cmd) => serde_json::to_value(&cmd).ok().and_then(|v| v.pointer("/Kql/where_clauses/1").cloned()).expect("filter sample"),
         Err(e) => panic!("cannot build the FILTER sample: {e}"),
     };
-    let mut env = Env { model: ModelProc::from_args(&args), report, filter_sample, seen_failure_keys: Default::default() };
+    let mut env = Env { model: ModelProc::from_args(&args), report, filter_sample, seen_failure_keys: Default::default(), rt: None, world: None };
     env.report.max_samples = 8;
 
     if let Some(path) = &args.replay {
@@ -894,6 +1069,11 @@ fn main() {
     }
     let ops = asserts(thorough);
     env.report.hit_n("generated:assert_ops", ops.len() as u64);
+    for op in &ops {
+        env.eval(op);
+    }
+    let ops = runtime_cases();
+    env.report.hit_n("generated:runtime_ops", ops.len() as u64);
     for op in &ops {
         env.eval(op);
     }
